@@ -53,6 +53,10 @@ type c05Case struct {
 	// case fits: nothing changes.
 	Prior     []int `json:"prior,omitempty"`
 	PriorRset bool  `json:"prior_rset,omitempty"`
+	// ShuttingDown: a graceful Server.Shutdown (no deadline) begins once the
+	// envelope has been sent. The connection is open, so it stays served:
+	// nothing about the transfer changes.
+	ShuttingDown bool `json:"shutting_down,omitempty"`
 }
 
 const c05Bait = "MAIL FROM:<bait@x>\r\nRCPT TO:<bait@x>\r\nQUIT\r\nDATA\r\nBDAT 3 LAST\r\n"
@@ -239,6 +243,10 @@ func c05Run(c c05Case) Verdict {
 		w.Finish()
 		return Verdict{Inconclusive: "server not idle after preamble: " + st}
 	}
+	if c.ShuttingDown && !r.BeginShutdown() {
+		w.Finish()
+		return Verdict{Inconclusive: "graceful Shutdown did not close the listener (watchdog)"}
+	}
 	nPre := len(r.B.Events())
 	prs, err := harness.ParseReplies(out)
 	if err != nil {
@@ -311,6 +319,9 @@ func c05Run(c c05Case) Verdict {
 	}
 	v.NonTrivial = len(c.Chunks) >= 2 || p.refusedWith || longRun || shares
 	v.Classes = append(v.Classes, "state_"+c.State)
+	if c.ShuttingDown {
+		v.Classes = append(v.Classes, "during_graceful_shutdown")
+	}
 	if len(c.Chunks) >= 2 {
 		v.Classes = append(v.Classes, "multi_chunk")
 	}
@@ -563,6 +574,7 @@ func c05Gen(t *rapid.T) c05Case {
 	p := c05Build(c)
 	c.Reads = genReadSizes(t, "reads")
 	c.GateStart = rapid.IntRange(0, 2).Draw(t, "gate_start") == 0
+	c.ShuttingDown = rapid.IntRange(0, 5).Draw(t, "shutting_down") == 0
 	if c.State == "valid" && rapid.IntRange(0, 999).Draw(t, "stall")%25 == 7 {
 		// payloads full of bait, stalled somewhere inside
 		for i := range c.Chunks {
@@ -621,7 +633,7 @@ func FuzzC05(f *testing.F) {
 			return
 		}
 		c := c05Case{State: []string{"valid", "nomail", "norcpt", "badlast", "overlimit"}[int(state)%5],
-			MaxLine: []int{32, 64, 2000}[int(state/5)%3], Mode: int(state/15) % 3, NRcpt: 1 + int(state/45)%3}
+			MaxLine: []int{32, 64, 2000}[int(state/5)%3], Mode: int(state/15) % 3, NRcpt: 1 + int(state/45)%3, ShuttingDown: state >= 225}
 		rest := payload
 		for i, s := range sizes {
 			n := int(s)
